@@ -616,26 +616,7 @@ def tag(case, f):
         cols = gen.block_columns(case['base']['blocks'])
         if len(cols) == 0:
             return 'equals-zero-column-frame-raises'
-    # NaT on both sides of a heterogeneous frame compared with skipna=False: when the two block
-    # layouts are not reblock-compatible the comparison runs on object .values, where NaT of a
-    # day-or-coarser unit has become None and None == None
-    if kind in ('frame', 'bus') and not case['opts']['skipna'] and f.kind == 'predicate' and '=True, reference predicate says False' in f.detail:
-        try:
-            cls = case['cls'] if kind == 'frame' else 'plain'
-            base, s0 = derive(case['base'], kind, case['pre'], cls)
-            recs = [base, derive(base, kind, case['eb'], cls)[0]]
-            if case['ec'] is not None:
-                recs.append(derive(base, kind, case['ec'], cls)[0])
-            for x in range(len(recs)):
-                for y in range(x + 1, len(recs)):
-                    ca, cb = _cols_of(recs[x], kind), _cols_of(recs[y], kind)
-                    if len(ca) != len(cb):
-                        continue
-                    for p, q in zip(ca, cb):
-                        if p.dtype.kind == 'M' and q.dtype.kind == 'M' and len(p) == len(q) and bool((np.isnat(p) & np.isnat(q)).any()):
-                            return 'equals-nat-both-sides-skipna-false-object-values'
-        except Exception:  # noqa: BLE001
-            return None
+    return None
     return None
 
 
@@ -730,21 +711,25 @@ def dl_cases(draw):
     n = draw(st.integers(1, 3))
     m = draw(st.integers(1, 5))
     vals = [[draw(st.integers(0, 9)) for _ in range(n)] for _ in range(m)]  # exactly representable in every dtype above
-    fam = draw(st.sampled_from([DL_DTYPES, ('float64', 'float32', 'int64'), ('object', 'int64', '<U1')]))
+    fam = draw(st.sampled_from([DL_DTYPES, ('float64', 'float32', 'int64'), ('object', 'int64', '<U1'), ('int64', 'float64', 'int64')]))
     base_dt = draw(st.sampled_from(fam))
     dts_a = [base_dt if draw(st.integers(0, 3)) < 3 else draw(st.sampled_from(fam)) for _ in range(m)]
     dts_b = [dts_a[j] if draw(st.integers(0, 2)) < 2 else draw(st.sampled_from(fam)) for j in range(m)]
     cut = lambda: [draw(st.booleans()) for _ in range(max(m - 1, 0))]  # noqa: E731  (join column j with j+1 when dtypes allow)
     edit = draw(st.one_of(st.none(), st.tuples(st.integers(0, m - 1), st.integers(0, n - 1))))
     return {'vals': vals, 'dts_a': dts_a, 'dts_b': dts_b, 'cut_a': cut(), 'cut_b': cut(), 'edit': edit,
+            # int64 columns hold values beyond 2**53 one time in three: neighbours there differ although their float64 images do not
+            'big': draw(st.integers(0, 2)) == 2,
             'opts': {'compare_name': draw(st.booleans()), 'compare_dtype': draw(st.booleans()), 'compare_class': draw(st.booleans()), 'skipna': draw(st.booleans())},
             'series': draw(st.integers(0, 5)) == 5}
 
 
-def _dl_cols(vals, dts):
+def _dl_cols(vals, dts, big=False):
     out = []
     for col, dt in zip(vals, dts):
-        if dt == '<U1':
+        if big and dt == 'int64':
+            out.append(np.array([2 ** 53 + 4 * v for v in col], dtype=np.int64))   # (+1 is another int64 with the same float64 image)
+        elif dt == '<U1':
             out.append(np.array([str(v) for v in col], dtype='<U1'))
         else:
             a = np.empty(len(col), dtype=dt)
@@ -772,11 +757,16 @@ def _dl_blocks(cols, cut):
 def check_dl(case):
     vals_a = [list(c) for c in case['vals']]
     vals_b = [list(c) for c in case['vals']]
-    if case['edit'] is not None:
+    big = bool(case.get('big'))
+    big_edit = big and case['edit'] is not None and case['dts_b'][case['edit'][0]] == 'int64'
+    if case['edit'] is not None and not big_edit:
         j, i = case['edit']
         vals_b[j][i] = (vals_b[j][i] + 1) % 10
     opts = case['opts']
-    ca, cb = _dl_cols(vals_a, case['dts_a']), _dl_cols(vals_b, case['dts_b'])
+    ca, cb = _dl_cols(vals_a, case['dts_a'], big), _dl_cols(vals_b, case['dts_b'], big)
+    if big_edit:
+        j, i = case['edit']
+        cb[j][i] += 1
     n, m = len(vals_a[0]), len(vals_a)
     if case['series']:
         a = sf.Series(gen.freeze(ca[0]), name='s')
